@@ -797,7 +797,7 @@ class Differ:
             Optional[int], Optional[Any], Optional[int], Optional[Any]
         ]] = []
         for lhs_idx, lhs_ele in enumerate(lhs):
-            if not key_attr in lhs_ele:
+            if not isinstance(lhs_ele, dict) or not key_attr in lhs_ele:
                 # Impossible to match this LHS record to any RHS record
                 self.logger.debug(
                     "LHS record has no identity key, {}, for record at {}:"
@@ -830,8 +830,11 @@ class Differ:
                         data=rhs_ele,
                         prefix="Differ::synchronize_lods_by_key:  ")
 
-                if not use_key in rhs_ele:
-                    # Impossible to match this RHS record to any LHS record
+                if (not isinstance(rhs_ele, dict)
+                    or not use_key in rhs_ele
+                    or not use_key in lhs_ele
+                ):
+                    # Impossible to match this RHS record to this LHS record
                     continue
 
                 if rhs_ele[use_key] == lhs_ele[use_key]:
